@@ -71,7 +71,7 @@ def gen_case(rng, tier="quick"):
         case["n"] = n = rng.randrange(3, 7)
         m["dkmax"] = _pick(rng, [None, 1, 2])
         m["nsys"] = _pick(rng, [1, 2, 2])
-        m["unique"] = False
+        m["unique"] = rng.random() < 0.25
         m["subdiv"] = None
         m["kappa"] = _r(rng, 0.1, 0.5)
         m["g"] = _r(rng, 0.2, 0.8)
